@@ -3,11 +3,12 @@ import json, os
 from .env import VERIF
 
 
-def write(pid, tier, seed, level, coverage, wall_s, violations, assumptions):
-    os.makedirs(os.path.join(VERIF, "evidence"), exist_ok=True)
+def write(pid, tier, seed, level, coverage, wall_s, violations, assumptions, outdir=None):
+    outdir = outdir or os.path.join(VERIF, "evidence")
+    os.makedirs(outdir, exist_ok=True)
     doc = dict(property_id=pid, tier=tier, seed=int(seed), level=level, coverage=coverage,
                assumptions=list(assumptions), wall_s=round(float(wall_s), 2), violations=int(violations))
-    path = os.path.join(VERIF, "evidence", pid + ".json")
+    path = os.path.join(outdir, pid + ".json")
     tmp = path + ".tmp"
     with open(tmp, "w") as f:
         json.dump(doc, f, indent=1, default=str)
